@@ -37,4 +37,5 @@ def run(ctx, rep):
     rep.run(RM.rule_callee_spelling, ctx, rep, "M10")
     rep.run(RM.rule_copy_exactly_for_values, ctx, rep, "M11")
     rep.run(RM.rule_pair_element_by_position, ctx, rep, "M12")
+    rep.run(RM.rule_enum_lookup_covers_scope, ctx, rep, "M13")
     rep.run(RF.rule_locals_defined, ctx, rep, "U1", packages=("gtwrap/matlab_wrapper",), min_functions=3)
